@@ -1430,6 +1430,10 @@ func (s *Server) validateInternalRequest(header *pdpb.RequestHeader, onlyAllowLe
 	if s.IsClosed() {
 		return errors.WithStack(ErrNotStarted)
 	}
+	// PD members do not state a cluster id in these requests (zero); one that is stated must be ours.
+	if id := header.GetClusterId(); id != 0 && id != s.clusterID {
+		return status.Errorf(codes.FailedPrecondition, "mismatch cluster id, need %d but got %d", s.clusterID, id)
+	}
 	// If onlyAllowLeader is true, check whether the sender is PD leader.
 	if onlyAllowLeader {
 		leaderID := s.GetLeader().GetMemberId()
